@@ -240,6 +240,37 @@ var c11Positions = []struct{ name, tpl string }{
 	{"filter-userfunc-int", `<p>{{ v | add(1) }}</p>`},
 	{"filter-userfunc-arg", `<p>{{ one | add(v) }}</p>`},
 	{"filter-file", `<p>{{ v | file }}</p>`},
+	{"userfunc-pipe-longdate", `<p>{{ v | longdate }}</p>`},
+	{"userfunc-call-longdate", `<p>{{ longdate(v) }}</p>`},
+	{"userfunc-attr-longdate", `<p :title="longdate(v)" v-if="longdate(v)">c</p><p v-text="v | longdate"></p>`},
+	{"userfunc-pipe-itemtitle", `<p>{{ v | itemtitle }}</p>`},
+	{"userfunc-call-itemtitle", `<p>{{ itemtitle(v) }}</p>`},
+	{"userfunc-attr-itemtitle", `<p :title="itemtitle(v)" v-if="itemtitle(v)">c</p><p v-text="v | itemtitle"></p>`},
+	{"userfunc-pipe-ptitle", `<p>{{ v | ptitle }}</p>`},
+	{"userfunc-call-ptitle", `<p>{{ ptitle(v) }}</p>`},
+	{"userfunc-attr-ptitle", `<p :title="ptitle(v)" v-if="ptitle(v)">c</p><p v-text="v | ptitle"></p>`},
+	{"userfunc-pipe-sumints", `<p>{{ v | sumints }}</p>`},
+	{"userfunc-call-sumints", `<p>{{ sumints(v) }}</p>`},
+	{"userfunc-attr-sumints", `<p :title="sumints(v)" v-if="sumints(v)">c</p><p v-text="v | sumints"></p>`},
+	{"userfunc-pipe-nkeys", `<p>{{ v | nkeys }}</p>`},
+	{"userfunc-call-nkeys", `<p>{{ nkeys(v) }}</p>`},
+	{"userfunc-attr-nkeys", `<p :title="nkeys(v)" v-if="nkeys(v)">c</p><p v-text="v | nkeys"></p>`},
+	{"userfunc-pipe-flagof", `<p>{{ v | flagof }}</p>`},
+	{"userfunc-call-flagof", `<p>{{ flagof(v) }}</p>`},
+	{"userfunc-attr-flagof", `<p :title="flagof(v)" v-if="flagof(v)">c</p><p v-text="v | flagof"></p>`},
+	{"userfunc-pipe-halfof", `<p>{{ v | halfof }}</p>`},
+	{"userfunc-call-halfof", `<p>{{ halfof(v) }}</p>`},
+	{"userfunc-attr-halfof", `<p :title="halfof(v)" v-if="halfof(v)">c</p><p v-text="v | halfof"></p>`},
+	{"userfunc-pipe-pairof", `<p>{{ v | pairof }}</p>`},
+	{"userfunc-call-pairof", `<p>{{ pairof(v) }}</p>`},
+	{"userfunc-attr-pairof", `<p :title="pairof(v)" v-if="pairof(v)">c</p><p v-text="v | pairof"></p>`},
+	{"userfunc-pipe-anyof", `<p>{{ v | anyof }}</p>`},
+	{"userfunc-call-anyof", `<p>{{ anyof(v) }}</p>`},
+	{"userfunc-attr-anyof", `<p :title="anyof(v)" v-if="anyof(v)">c</p><p v-text="v | anyof"></p>`},
+	{"userfunc-joinv-0", `<p>{{ v | joinv }}</p>`},
+	{"userfunc-joinv-1", `<p>{{ joinv(v) }}</p>`},
+	{"userfunc-joinv-2", `<p>{{ joinv("-", v, v) }}</p>`},
+	{"userfunc-joinv-3", `<p>{{ "-" | joinv(v) }}</p>`},
 	{"call", `<p>{{ len(v) }}|{{ upper(v) }}</p>`},
 	{"op-eq", `<p>{{ v == 1 }}|{{ v != "a" }}|{{ v === v }}</p>`},
 	{"op-cmp", `<p>{{ v > 1 }}</p>`},
